@@ -12,6 +12,7 @@
     counterexample is replayed into the compiled function together with an above-burst corpus.
 """
 import random, json
+from concurrent.futures import ThreadPoolExecutor
 import vkit
 from checks import ratelim_common as rc
 
@@ -112,26 +113,26 @@ def run(tier, seed):
     rng = random.Random(seed)
     exe = vkit.cc("tokenbucket_drv", ["tokenbucket_drv.c"])
 
-    # ---- 1. symbolic theorems at the real widths
+    # ---- 1. symbolic theorems at the real widths (Apalache) and 2. TLC, small word, exhaustive
     A64 = "TokenBucket_A64"
-    rc.prove(chk, A64, "Exact64", inv="Exact", init="InitSym", next_="Next", length=1)
-    rc.prove(chk, A64, "SkipUnchanged64", inv="SkipUnchanged", init="InitSym", next_="Next", length=1)
-    rc.prove(chk, A64, "TickExact64", inv="TickExact", init="InitFree", next_="Stutter", length=0)
-    rc.prove(chk, A64, "TickDiff64", inv="TickDiff", init="InitFree", next_="Stutter", length=0)
-    rc.prove(chk, A64, "CfgNewExact64", inv="CfgNewExact", init="InitFree", next_="Stutter", length=0)
-    rall = rc.prove(chk, A64, "ExactAll64", inv="ExactAll", init="InitSym", next_="Next", length=1, expect="any")
-
-    # ---- 2. TLC, small word, exhaustive
     small = {"M": 64 if q else 128, "NM": 8, "KMS": 3}
-    for name, init, nxt, invs in (("C21_upd", "InitEnum", "Next", ["Exact", "SkipUnchanged"]),
-                                  ("C21_tick", "InitFreeEnum", "Stutter", ["TickExact"]),
-                                  ("C21_diff", "InitDiffEnum", "Stutter", ["TickDiff"])):
-        cfg = vkit.write_cfg(name, small, invariants=invs, init=init, next_=nxt)
-        res = vkit.tlc("TokenBucket", cfg, want_prints=False, coverage=True, workers=8)
-        chk.add_tlc(name, res)
-        if name == "C21_upd":
-            chk.check_coverage(res, ["InitEnum", "Refill"], name)
-    chk.cov["exhaustive"] = True
+    def tlc_small():
+        out = []
+        for name, init, nxt, invs in (("C21_upd", "InitEnum", "Next", ["Exact", "SkipUnchanged"]),
+                                      ("C21_tick", "InitFreeEnum", "Stutter", ["TickExact"]),
+                                      ("C21_diff", "InitDiffEnum", "Stutter", ["TickDiff"])):
+            cfg = vkit.write_cfg(name, small, invariants=invs, init=init, next_=nxt)
+            out.append((name, vkit.tlc("TokenBucket", cfg, want_prints=False, coverage=True, workers=4)))
+        return out
+    pool = ThreadPoolExecutor(max_workers=5)
+    f_tlc = pool.submit(tlc_small)
+    th = [dict(name="Exact64", inv="Exact", init="InitSym", next_="Next", length=1),
+          dict(name="SkipUnchanged64", inv="SkipUnchanged", init="InitSym", next_="Next", length=1),
+          dict(name="TickExact64", inv="TickExact", init="InitFree", next_="Stutter", length=0),
+          dict(name="TickDiff64", inv="TickDiff", init="InitFree", next_="Stutter", length=0),
+          dict(name="CfgNewExact64", inv="CfgNewExact", init="InitFree", next_="Stutter", length=0),
+          dict(name="ExactAll64", inv="ExactAll", init="InitSym", next_="Next", length=1, expect="any")]
+    rall = rc.prove_many(chk, A64, th)["ExactAll64"]
 
     # ---- 3. vectors on the compiled functions
     bnd = dir_boundary(rng)
@@ -189,15 +190,29 @@ def run(tier, seed):
     chk.sample({"upd": S(upd[0]), "out": S(o_upd[0])}); chk.sample({"upd": S(upd[-1]), "out": S(o_upd[-1])})
     chk.sample({"tick": S(ticks[0]), "out": S(o_tick[0])}); chk.sample({"cfg": S(cfgs[0]), "out": S(o_cfg[0])})
 
-    par = 3 if q else 4
-    for tag, vecs, obs, exprs, key in (("upd", upd, o_upd, e_upd, None), ("tick", ticks, o_tick, e_tick, None),
-                                       ("cfg", cfgs, o_cfg, e_cfg, None), ("above", above, o_above, e_above, KEY_ABOVE)):
-        fails = rc.validate_vectors(chk, "TokenBucket", tag, exprs, chunk=100 if q else 150, parallel=par)
+    fams = (("upd", upd, o_upd, e_upd, None), ("tick", ticks, o_tick, e_tick, None),
+            ("cfg", cfgs, o_cfg, e_cfg, None), ("above", above, o_above, e_above, KEY_ABOVE))
+    futs = [pool.submit(rc.validate_vectors, chk, "TokenBucket", tag, exprs, chunk=100 if q else 150,
+                        parallel=3 if tag == "upd" else 1, bisect=key is None) for tag, _, _, exprs, key in fams]
+    for (tag, vecs, obs, exprs, key), f in zip(fams, futs):
+        fails = f.result()
         chk.cov["traces_validated_against_impl"] += len(exprs)
         for i in fails:
-            chk.violation("%s vector %s -> compiled code returned %s; specification (TokenBucket.tla %s) disagrees" %
-                          (tag, S(vecs[i]), S(obs[i]), exprs[i].split("(")[0]),
-                          {"kind": tag, "vector": S(vecs[i]), "observed": S(obs[i]), "tla": exprs[i]}, key=key)
+            if key:
+                chk.violation("at least one of the %d vectors with a level above the burst violates UpdateSpec, e.g. input %s -> observed %s "
+                              "(min(burst, level+n*rate) expected)" % (len(vecs), S(vecs[0]), S(obs[0])),
+                              {"kind": tag, "vectors": [S(v) for v in vecs], "observed": [S(o) for o in obs], "vector": S(vecs[0]),
+                               "tla": exprs[0]}, key=key)
+            else:
+                chk.violation("%s vector %s -> compiled code returned %s; specification (TokenBucket.tla %s) disagrees" %
+                              (tag, S(vecs[i]), S(obs[i]), exprs[i].split("(")[0]),
+                              {"kind": tag, "vector": S(vecs[i]), "observed": S(obs[i]), "tla": exprs[i]}, key=key)
+    for name, res in f_tlc.result():
+        chk.add_tlc(name, res)
+        if name == "C21_upd":
+            chk.check_coverage(res, ["InitEnum", "Refill"], name)
+    chk.cov["exhaustive"] = True
+    pool.shutdown()
 
     chk.cov["rule"] = ("Apalache proves Exact/SkipUnchanged/TickExact/TickDiff/CfgNewExact for all 64-bit inputs (symbolic); TLC enumerates "
                        "every input at word size M=%d; each vector is one call of the compiled function whose complete result "
